@@ -612,7 +612,31 @@ def check_C16(ctx):
     for k in ("span_records", "err_records", "syn_records", "with_alias", "with_merge", "alias_keys", "err_through_alias_or_merge"):
         ctx.notes[k] = st[k]
     mism = run_tv(ctx, "TV_Locations", recs, timeout=6000, shards=12)
-    matchers = {"C16-quoted-span-runs-to-line-end": lambda rec, d: isinstance(d, dict) and d.get("verdict") == "quoted-span-runs-past-closing-quote"}
+    def alias_in_complex_key(rec, d):
+        """an alias token somewhere inside a sequence / mapping that stands in key position"""
+        if not (isinstance(d, dict) and d.get("verdict") == "referenced-names-wrong-site"):
+            return False
+        stack = []          # [is_map, expecting_key, inside_key]
+        for e in rec.get("raw", []):
+            top = stack[-1] if stack else None
+            at_key = bool(top and top[0] and top[1])
+            inside = bool(top and top[2])
+            k = e.get("k")
+            if k in ("S", "AL"):
+                if k == "AL" and inside:
+                    return True
+                if top and top[0]:
+                    top[1] = not top[1]
+            elif k in ("SS", "MS"):
+                if top and top[0]:
+                    top[1] = not top[1]
+                stack.append([k == "MS", True, inside or at_key])
+            else:
+                if stack:
+                    stack.pop()
+        return False
+    matchers = {"C16-quoted-span-runs-to-line-end": lambda rec, d: isinstance(d, dict) and d.get("verdict") == "quoted-span-runs-past-closing-quote",
+                "C16-alias-inside-complex-key": alias_in_complex_key}
     classify_mismatches(ctx, mism, recs, matchers, "a reported location is inconsistent with the text or names the wrong node / site (Locations!LVerdict, ErrSites)")
     return finish(ctx, "model_checking",
                   "coordinates: every text of <= 4/5 characters over {1-, 2-, 4-byte character, TAB, LF, CR} (TLC: laws of LineAt / ColAt / "
